@@ -32,8 +32,6 @@ type dir struct {
 	cuts  []int
 	every int
 
-	// writer-side fault: at most this many bytes are accepted (<0: no limit);
-	// later bytes are dropped silently (truncation by the link).
 	reads, zeroReads int
 }
 
